@@ -476,12 +476,20 @@ func checkC13(c *Ctx) {
 	var execs, points, maxPoints, spawnedTotal int64
 	boundHit := false
 	for si := range scenarios {
+		if c.NViolations() >= 3 {
+			// three violating scenarios are reported; exploring the rest of a broken tree only costs time
+			// (executions that run into the horizon are 20 000 points long)
+			break
+		}
 		sc := &scenarios[si]
 		var world *c13World
 		first := true
 		b := bound
 		if progs[sc.Prog].terminating && !c.Quick() && sc.Runs <= 1 {
 			b = -1 // unbounded for terminating programs (single Run; repeated Runs stay at the preemption bound)
+		}
+		if os.Getenv("VERIF_C13_TRACE") != "" {
+			fmt.Fprintf(os.Stderr, "scenario %d %q bp%d can%d dl%v starts t=%.1fs\n", si, sc.Name, sc.BP, sc.Canceller, sc.Deadline, time.Since(startTime).Seconds())
 		}
 		st := sched.Explore(b, c13Horizon, 400000, c13Body(bg, sc, &world), func(x *sched.Scheduler) bool {
 			spawned := rt.Spawned
@@ -525,6 +533,9 @@ func checkC13(c *Ctx) {
 			}
 			return true
 		})
+		if os.Getenv("VERIF_C13_TRACE") != "" {
+			fmt.Fprintf(os.Stderr, "scenario %d %q bp%d can%d dl%v: %d executions, %d points, t=%.1fs\n", si, sc.Name, sc.BP, sc.Canceller, sc.Deadline, st.Executions, st.Points, time.Since(startTime).Seconds())
+		}
 		execs += int64(st.Executions)
 		points += int64(st.Points)
 		if int64(st.MaxPoints) > maxPoints {
